@@ -44,6 +44,16 @@ func genWinbox(r *vrng, ctx caddy.Context) mcase {
 	}
 	msg := &l4winbox.MessageAuth{Username: us, PublicKeyBytes: r.bytes(r.pick(32, 32, 32, 32, 31, 33, 0), 256), PublicKeyParity: byte(r.pick(0, 1, 1, 0, 2))}
 	raw := msg.ToBytes()
+	corrupted := false
+	if len(raw) > 259 && r.intn(3) == 0 {
+		// the continuation chunk must be typed 0xFF
+		raw[258] = byte(r.pick(0x06, 0x06, 0x00, 0xfe, 0x07))
+		corrupted = true
+	}
+	if len(raw) > 40 && r.intn(12) == 0 {
+		raw[1] = byte(r.pick(0xff, 0x05, 0x07))
+		corrupted = true
+	}
 	m := &l4winbox.MatchWinbox{}
 	std, rom := 1, 1
 	switch r.intn(4) {
@@ -69,7 +79,30 @@ func genWinbox(r *vrng, ctx caddy.Context) mcase {
 		m.UsernameRegexp, retok = rePrefix(r, "a", "ab", "X", string(alnum[int(us[0])%len(alnum)]))
 	}
 	prov(ctx, m)
-	return mcase{name: "winbox", cfg: fmt.Sprintf("%d %d %s %s", std, rom, utok, retok), m: m, msg: mutate(r, raw), model: true}
+	// reference: a well-formed auth message (user name syntax, 32-byte key, parity bit) in an accepted mode with an accepted name
+	base := strings.TrimSuffix(us, "+r")
+	isRomon := strings.HasSuffix(us, "+r")
+	nameOK := regexp.MustCompile("^[0-9A-Za-z](?:[-#.0-9@A-Z_a-z]+[0-9A-Za-z])?$").MatchString(base)
+	exp := "yes"
+	if !nameOK || len(msg.PublicKeyBytes) != 32 || msg.PublicKeyParity > 1 || len(us) > 255 || strings.ContainsRune(us, 0) {
+		exp = "no"
+	}
+	if (isRomon && rom == 0) || (!isRomon && std == 0) {
+		exp = "no"
+	}
+	if m.Username != "" && m.Username != base {
+		exp = "no"
+	}
+	if m.Username == "" && m.UsernameRegexp != "" && !regexp.MustCompile(m.UsernameRegexp).MatchString(base) {
+		exp = "no"
+	}
+	if len(msg.PublicKeyBytes) != 32 {
+		exp = "" // the key may itself contain the delimiter: not stated
+	}
+	if corrupted {
+		exp = "no" // a chunk type other than 0x06 (first) / 0xFF (continuation) is not a WinBox auth message
+	}
+	return mcase{name: "winbox", cfg: fmt.Sprintf("%d %d %s %s", std, rom, utok, retok), m: m, msg: mutate(r, raw), model: true, expect: exp}
 }
 
 func genWireguard(r *vrng, ctx caddy.Context) mcase {
@@ -90,7 +123,12 @@ func genWireguard(r *vrng, ctx caddy.Context) mcase {
 		msg = r.bytes(148, 256)
 		binary.LittleEndian.PutUint32(msg, uint32(r.pick(1, 4, 0x101, 0x104)))
 	}
-	return mcase{name: "wireguard", cfg: fmt.Sprintf("%d", zero), m: m, msg: mutate(r, msg), model: true, udp: true}
+	exp := "no"
+	ty := binary.LittleEndian.Uint32(msg)
+	if (len(msg) == 148 && ty == (zero&0xffffff00)|1) || (len(msg) == 32 && ty == (zero&0xffffff00)|4) {
+		exp = "yes"
+	}
+	return mcase{name: "wireguard", cfg: fmt.Sprintf("%d", zero), m: m, msg: mutate(r, msg), model: true, udp: true, expect: exp}
 }
 
 func genRDP(r *vrng, ctx caddy.Context) mcase {
